@@ -12,7 +12,7 @@ RULE = (
     "(raises, failing items/futures), sync re-entry, several batch kinds; one third of the programs also share tasks "
     "between parents that override the same values differently - reads are then removed from everything reachable from a "
     "shared task (only there the sequential answer is not unique), while reads in the parents and their other children "
-    "remain. One program in five comes from a structured 'diamond' family: a pending task with its own override awaited by 2-3 parents that override the same value differently, each with a private reading child. All get_priority() policies, both builds. Oracles: every read "
+    "remain. One program in five comes from a structured 'diamond' family: a pending task with its own override awaited by 2-3 parents that override the same value differently, each with a private reading child. One program in ten gives some logging contexts a resume()/pause() that raises on its 2nd/3rd call (then without the reference: nesting and restoration only). All get_priority() policies, both builds. Oracles: every read "
     "equals the sequential reference's dynamic override stack (override values are unique per site, so a read names the "
     "override that produced it); the thread's global resume/pause sequence of logging contexts is well parenthesised; "
     "after the computation ends (value or exception) every scoped value and attribute is back at its default. "
@@ -150,6 +150,7 @@ def diamond_program(rnd):
 
 
 MONITORS = ("refeq", "restore", "nesting")
+MONITORS_F = ("restore", "nesting")
 HOWS = ["call", "value", "yielded", "yielded_value"]
 
 
@@ -189,6 +190,18 @@ def run_unit(unit, progress):
             gen.strip_reads_under_shared(prog)
             inc("programs_with_shared_tasks")
         rnd = random.Random(cs ^ 0xC07)
+        faulty = False
+        if i % 10 == 7:
+            # logging contexts whose own resume()/pause() raise on a later call, next to overrides in the same
+            # tasks: no reference then, but nesting and "everything restored afterwards" still apply
+            names = sorted(set(st[1][1] for node in prog["nodes"] for st in lang.iter_stmts(node["body"]) if st[0] == "with" and st[1][0] == "actx"))
+            frnd = random.Random(cs ^ 0xF07)
+            if names:
+                prog["ctx_faults"] = {}
+                for nm in frnd.sample(names, min(len(names), frnd.randint(1, 2))):
+                    prog["ctx_faults"][nm] = [frnd.choice(["resume", "resume", "pause"]), frnd.randint(2, 3)]
+                faulty = True
+                inc("programs_with_failing_context_callbacks")
         try:
             exp_rrt = ref.evaluate(prog)
         except lang.HarnessFault:
@@ -207,7 +220,9 @@ def run_unit(unit, progress):
         flushed = False
         for pi, pol in enumerate(pols):
             how = HOWS[(i + pi) % 4]
-            rt, out, _e, _r = tl.execute(prog, how, pol, cs, MONITORS, rrt_exp=exp_rrt)
+            rt, out, _e, _r = tl.execute(prog, how, pol, cs, MONITORS_F if faulty else MONITORS, rrt_exp=None if faulty else exp_rrt)
+            if faulty and any(ev[0] == "ctx_fault" for ev in rt.log):
+                inc("runs_where_a_context_callback_raised")
             res["evaluations"] += 1
             tl.harvest(rt, c)
             if any(ev[0] == "flush_body" for ev in rt.log):
@@ -245,7 +260,7 @@ def run_unit(unit, progress):
 
 def reach(c, tier):
     out = []
-    for k in ("reads_compared", "reads_under_an_override", "programs_with_shared_tasks", "diamond_programs", "n_nesting_events", "n_restore_checks", "computations_ending_in_exception"):
+    for k in ("reads_compared", "reads_under_an_override", "programs_with_shared_tasks", "diamond_programs", "n_nesting_events", "n_restore_checks", "computations_ending_in_exception", "runs_where_a_context_callback_raised"):
         if not c.get(k):
             out.append("%s is zero" % k)
     if c.get("max_nesting_depth", 0) < 2:
